@@ -264,7 +264,7 @@ func (r *runner) corrChild(out string) {
 		if !c.Quick() {
 			cases = append(cases, truncationCases(rng, Cfg{Handler: "full", UDP: false, TLS: true}, 3)...)
 		}
-		n := c.N(900, 40000)
+		n := c.N(900, 12000)
 		for i := 0; i < n; i++ {
 			cfg := cfgs[rng.IntN(len(cfgs))]
 			sub := rand.New(rand.NewPCG(c.Seed, uint64(i)+77))
